@@ -103,17 +103,18 @@ JOBS['C01'] = [
     e2e('e2e_u8_n3_e1_r1', 'uint8_t', 3, 1, 1),
     e2e('e2e_u8_n3_e1_r0', 'uint8_t', 3, 1, 0),
     e2e('e2e_u8_n4_e1_r0', 'uint8_t', 4, 1, 0, tiers=T, timeout=3000),
+    e2e('e2e_u8_n4_e1_r0_k15', 'uint8_t', 4, 1, 0, timeout=1800, extra=dict(ORD_HI=15), narrow=8),
     e2e('e2e_u8_n5_e1_r0_k31', 'uint8_t', 5, 1, 0, tiers=T, timeout=5000, extra=dict(ORD_HI=31), narrow=8, mem_gb=40),
 ]
 JOBS['C03'] = [pla('pla_fit_k3_e0', 3, epsfix=0, maximality=False),
                pla('pla_fit_k3_e1_x63', 3, epsfix=1, xmax=63, ymax=6, maximality=False), pla('pla_fit_k3_e2_x31', 3, epsfix=2, xmax=31, ymax=6, maximality=False),
                pla('pla_fit_k3_e1', 3, epsfix=1, maximality=False, tiers=T, timeout=3000), pla('pla_fit_k3_e2', 3, epsfix=2, maximality=False, tiers=T, timeout=3000),
                pla('pla_fit_k4_e1_x31', 4, epsfix=1, xmax=31, ymax=6, maximality=False, tiers=T, timeout=3000)]
-JOBS['C03'] += [mkseg('mkseg_n3_e1', 3, 1), mkseg('mkseg_n3_e1_c2', 3, 1, chunks=2), mkseg('mkseg_n4_e1_c2', 4, 1, chunks=2, tiers=T, timeout=3000)]
+JOBS['C03'] += [mkseg('mkseg_n3_e1_c2', 3, 1, chunks=2, timeout=1800), mkseg('mkseg_n3_e1', 3, 1, tiers=T, timeout=3000), mkseg('mkseg_n4_e1_c2', 4, 1, chunks=2, tiers=T, timeout=3000, ), mkseg('mkseg_n4_e0_c3', 4, 0, chunks=3, tiers=T, timeout=3000)]
 JOBS['C04'] = [pla('pla_max_k3_e%d_x15' % e, 3, epsfix=e, xmax=15, ymax=6) for e in (0, 1)] + \
               [pla('pla_max_k3_e1_x63', 3, epsfix=1, xmax=63, ymax=6, tiers=T, timeout=3000)]
 JOBS['C14'] = [md('md_contains_n1', 0, 1, 3), md('md_contains_n2', 0, 2, 3)]
-JOBS['C13'] = [md('md_range_n1', 1, 1, 3), md('md_range_n2', 1, 2, 3), md('md_range_n3_skip', 1, 3, 3, miss=0), md('md_range_n4_skip', 1, 4, 3, miss=0, tiers=T, timeout=3000)]
+JOBS['C13'] = [md('md_range_n1', 1, 1, 3), md('md_range_n2', 1, 2, 3), md('md_range_n3_skip', 1, 3, 3, miss=0, epsrec=0, timeout=1800), md('md_range_n4_skip', 1, 4, 3, miss=0, tiers=T, timeout=3000)]
 JOBS['C05'] = [dyn('dyn_q_noidx_b0_o2', 0, 0, 2, idxl=10), dyn('dyn_q_noidx_b0_o3', 0, 0, 3, idxl=10), dyn('dyn_q_noidx_b0_o4', 0, 0, 4, idxl=10, tiers=T, timeout=3000, mem_gb=40)]
 JOBS['C06'] = [dyn('dyn_it_noidx_b0_o2', 1, 0, 2, idxl=10), dyn('dyn_rng_noidx_b0_o2', 3, 0, 2, idxl=10), dyn('dyn_lbit_noidx_b0_o2', 4, 0, 2, idxl=10), dyn('dyn_it_noidx_b0_o4', 1, 0, 4, idxl=10, tiers=T, timeout=3000)]
 JOBS['C15'] = [dyn('dyn_inv_noidx_b0_o2', 2, 0, 2, idxl=10), dyn('dyn_inv_noidx_b0_o3', 2, 0, 3, idxl=10), dyn('dyn_inv_noidx_b0_o4', 2, 0, 4, idxl=10, tiers=T, timeout=3000, mem_gb=40)]
@@ -122,7 +123,7 @@ JOBS['C06'] += [dynstep('dynstep_it_321', 1, 3, 2, 1), dynstep('dynstep_rng_321'
 JOBS['C15'] += [dynstep('dynstep_inv_322', 2, 3, 2, 2)]
 JOBS['C11'] = [mapped('mapped_u8_n2', 'uint8_t', 2), mapped('mapped_i8_n2', 'int8_t', 2), mapped('mapped_u8_n3_dense', 'uint8_t', 3, ord_hi=3), mapped('mapped_i8_n3', 'int8_t', 3, tiers=T, timeout=3000)]
 
-JOBS['C02'] = JOBS['C01']
+JOBS['C02'] = JOBS['C01'] + [j_ for j_ in JOBS['C03'] if j_['name'] == 'mkseg_n3_e1_c2']
 JOBS['C07'] = [e2e('e2e_u8_n3_e1_r1', 'uint8_t', 3, 1, 1), e2e('e2e_i8_n2_e1_r1', 'int8_t', 2, 1, 1), e2e('e2e_u8_n4_e1_r1', 'uint8_t', 4, 1, 1, tiers=T, timeout=3000)]
 JOBS['C16'] = [e2e('frame_u8_n2_e1_r1', 'uint8_t', 2, 1, 1, extra=dict(WITH_FRAME=1)), e2e('frame_u8_n3_e1_r0', 'uint8_t', 3, 1, 0, extra=dict(WITH_FRAME=1))]
 JOBS['C20'] = [e2e('reject_u8_n%d' % n, 'uint8_t', n, 1, 1, extra=dict(ALLOW_SENTINEL=1)) for n in (1, 2)] + \
